@@ -30,6 +30,12 @@ func c06Offers() []c06Offer {
 		o("[]string", "literal", `[]string{"a"}`, false), o("[]string", "variable", "vss", true), o("[]string", "call", "fss()", false),
 		o("void", "call", "fv()", false),
 		o("multi", "call", "f2()", false),
+		// expressions that are ill-typed in themselves (type tag "ill"): no position accepts them, whatever
+		// type the broken operator would have produced
+		o("ill", "not-int", "!5", false), o("ill", "not-not-int", "!!5", false), o("ill", "not-not-string", "!!vs", false), o("ill", "not-not-not-int", "!!!vi", false),
+		o("ill", "not-not-slice", "!!vsi", false), o("ill", "not-not-group-int", "!(!(vi))", false), o("ill", "int-plus-string", "(vi + vs)", false), o("ill", "bool-and-int", "(vb && vi)", false),
+		o("ill", "int-less-string", "(vi < vs)", false), o("ill", "len-of-int", "len(vi)", false), o("ill", "itoa-of-string", "itoa(vs)", false), o("ill", "string-index", "vsi[vs]", false),
+		o("ill", "call-with-argument-for-none", "fi(1)", false), o("ill", "group-not-not-int", "(!!5)", false),
 	}
 }
 
@@ -128,6 +134,14 @@ func c06Positions() []c06Pos {
 		add(c06Pos{name: "logical" + op + ".right", stmt: "r := vb " + op + " %H\nprint(r)", accept: []string{"bool"}})
 	}
 	add(c06Pos{name: "not.operand", stmt: "r := !%H\nprint(r)", accept: []string{"bool"}})
+	// chains of the unary operator: every level requires a bool
+	add(c06Pos{name: "not-not.operand", stmt: "r := !!%H\nprint(r)", accept: []string{"bool"}})
+	add(c06Pos{name: "not-not-not.operand", stmt: "r := !!!%H\nprint(r)", accept: []string{"bool"}})
+	add(c06Pos{name: "not-x4.operand", stmt: "r := !!!!%H\nprint(r)", accept: []string{"bool"}})
+	add(c06Pos{name: "not-group-not.operand", stmt: "r := !(!%H)\nprint(r)", accept: []string{"bool"}})
+	add(c06Pos{name: "not-not-in-condition.operand", stmt: "if !!%H {\nprint(1)\n}", accept: []string{"bool"}})
+	add(c06Pos{name: "not-not-as-argument.operand", stmt: `p3(1, "x", !!%H)`, accept: []string{"bool"}})
+	add(c06Pos{name: "not-not-compared.operand", stmt: "r := !!%H == vb\nprint(r)", accept: []string{"bool"}})
 	add(c06Pos{name: "group.arith", stmt: "r := (%H) * 2\nprint(r)", accept: []string{"int"}})
 	// definitions
 	add(c06Pos{name: "define-short", stmt: "d := %H\nprint(len(vs))", accept: single})
@@ -329,6 +343,8 @@ func C06() int {
 			cn := ctxNames
 			if p.noCtx {
 				cn = []string{"top"}
+			} else if o.typ == "ill" {
+				cn = []string{"top", "function"}
 			}
 			for _, c := range cn {
 				w := c06Contexts[c]
